@@ -42,7 +42,8 @@ LEVEL_TEXT = ("Theorems (Coq, all inputs / all histories, about the Gallina mode
               "(a) kernel-certified samples: the library's doubles at generated points are proved by Coq-Interval to lie within the stated tolerance (1e-12 for a <= 100, 1e-3 above, absolute) of the closed form for integer a "
               "(and of (n-1)!, ln (n-1)! for Gamma/GammaLn), dense around x = a+1 and a = 100, and (b) implementation-side predicates against an independent 60-digit reference "
               "(Python decimal: positive-term series for P with a Stirling log-gamma), evaluated on every generated input: range, P+Q, monotonicity, accuracy, recurrences, Pascal, symmetry, inverse round trip. "
-              "Known findings still in the tree: Inv_GammaP = NaN for a > 100 and p within 1e-8 of 1 (K-C06-2); Inv_GammaP unrefined when the solution is a subnormal double (K-C06-4).")
+              "Known findings still in the tree: Inv_GammaP = NaN for a > 100 and p within 1e-8 of 1 (K-C06-2); Inv_GammaP unrefined when the solution is a subnormal double (K-C06-4); "
+              "GammaQ slightly negative / GammaP slightly above 1 (by less than 1e-12) for shapes a below about 4e-15 (K-C06-5).")
 LEVEL_NOTE = ("Coq 8.16.1 kernel; theorems over R use the standard library's real-number axioms (and Classical_Prop.classic through Coquelicot), the Z/nat theorems are axiom-free; "
               "certified samples additionally rest on Coq-Interval (primitive 63-bit integers through Bignums). Hand-written model tied by differential correspondence "
               "(extraction with ExtrOcamlBasic only); exp, log, sqrt, pow, floor are the same libm functions on both sides (modelled by exp, ln, sqrt, Rpower, Int_part in R). The two uncapped while loops carry a fuel of 100000 iterations "
@@ -186,7 +187,7 @@ def _rand_a(rng):
     if r < 0.30: return _near(rng, 100.0)                             # the a = 100 switch
     if r < 0.36: return float(rng.choice([101, 102, 110, 150, 200, 1000, 5000, 10000]))
     if r < 0.46: return 10 ** rng.uniform(2, 4)                       # quadrature branch
-    if r < 0.52: return 10 ** rng.uniform(-8, -1)                     # tiny a
+    if r < 0.52: return 10 ** (rng.uniform(-8, -1) if rng.random() < 0.7 else rng.uniform(-300, -8))     # tiny a: every decade down to 1e-300
     if r < 0.56: return _near(rng, 1.0)
     return 10 ** rng.uniform(-1, 2)
 
@@ -217,8 +218,9 @@ def _tiny_x(rng):
 def _small_a(rng):
     """shapes for which P(x,a) ~ x^a / Gamma(a+1) is NOT small at tiny x: a geometric ladder below 1 (and a few ordinary ones)"""
     r = rng.random()
-    if r < 0.45: return 10 ** rng.uniform(-8, -1)
-    if r < 0.60: return rng.choice([1e-8, 1e-6, 1e-4, 1e-3, 2.5e-3, 0.01, 0.02, 0.035, 0.04, 0.05, 0.1])
+    if r < 0.38: return 10 ** rng.uniform(-8, -1)
+    if r < 0.45: return 10 ** rng.uniform(-300, -8)
+    if r < 0.60: return rng.choice([1e-300, 1e-100, 1e-20, 1e-16, 1e-8, 1e-6, 1e-4, 1e-3, 2.5e-3, 0.01, 0.02, 0.035, 0.04, 0.05, 0.1])
     if r < 0.75: return 10 ** rng.uniform(-1, 0)
     if r < 0.85: return rng.choice([0.25, 0.5, 1.0, 1.5, 3.0, 100.0])
     return _rand_a(rng)
@@ -355,7 +357,7 @@ def _shape(rng):
     r = rng.random()
     if r < 0.25: return rng.choice([0.5, 1.0, 1.5, 2.0, 3.0, 3.5, 4.0, 5.0, 10.0, 25.0, 50.0, 99.0, 100.0])
     if r < 0.40: return 10 ** rng.uniform(-2, 0)
-    if r < 0.52: return 10 ** rng.uniform(-8, -1.5)
+    if r < 0.52: return 10 ** (rng.uniform(-8, -1.5) if rng.random() < 0.8 else rng.uniform(-300, -8))
     if r < 0.62: return _near(rng, rng.choice([1.0, 100.0]))
     if r < 0.72: return rng.choice([101.0, 150.0, 1000.0, 10 ** rng.uniform(2, 4)])
     return 10 ** rng.uniform(-1, 2)
@@ -437,7 +439,7 @@ def _seq_case(rng):
     elif fam < 0.68:      # fixed x (or p), ladder of the shape a: fine scans in a, derivatives with respect to a, a = 100 and a = 1 crossed
         op = rng.choice(["gammaq", "gammap", "upper", "lower", "invp", "invq"]); tag = "a-ladder"
         u = _rand_x(rng, a) if not op.startswith("inv") else min(max(rng.random(), 1e-6), 1 - 1e-6)
-        for b in _ladder(rng, a, 1e-8, 1e4, n):
+        for b in _ladder(rng, a, 1e-300, 1e4, n):
             uu = min(u, b + 40 * math.sqrt(b) + 40) if not op.startswith("inv") else u
             calls.append(f"{op} {H(uu)} {H(b)}")
     elif fam < 0.80:      # GammaLn / Gamma: ladders of x, x and x+1, near integers
@@ -474,7 +476,7 @@ def generate(rng, tier):
     cs = []
     big = tier != "quick"
     # ---- histories of calls (one pristine process per case), every function of the family
-    for _ in range(3000 if big else 700):
+    for _ in range(5000 if big else 1000):
         cs.append(_seq_case(rng))
     # ---- Factorial histories (every call order is one case line); exits are cases of their own
     for _ in range(400 if big else 40):
@@ -642,6 +644,13 @@ def nontrivial(c, io):
 # ------------------------------------------------------------------------------------------------ S4 predicates
 def acc_tol(a): return 1e-12 if a <= 100.0 else 1e-3
 def region(a): return "quadrature" if a > 100.0 else "series-cf"     # suffix of the signatures: which method served the request
+
+
+def range_region(a, v):
+    """suffix of the signature of the clause 'P and Q lie in [0,1]': the method, and - for the shapes below 1e-12, where the true Q ~ a E1(x)
+    is smaller than the rounding of the prefactor - whether the value leaves [0,1] by no more than the accuracy tolerance 1e-12 (K-C06-5)"""
+    if a < 1e-12 and -1e-12 <= v <= 1.0 + 1e-12: return region(a) + ":tiny-a:by-less-than-1e-12"
+    return region(a)
 
 
 def mono_slack(x, a):
@@ -851,10 +860,10 @@ def predicates(c, io):
         where = f"(x={x!r}, a={a!r})"
         if q is not None:
             if x == 0 and q != 1.0: out.append(("gammaq:at-zero", f"GammaQ(0,{a!r}) = {q!r}"))
-            if not (0.0 <= q <= 1.0): out.append(("gammaq:range:" + region(a), f"GammaQ{where} = {q!r} lies outside [0,1]"))
+            if not (0.0 <= q <= 1.0): out.append(("gammaq:range:" + range_region(a, q), f"GammaQ{where} = {q!r} lies outside [0,1]"))
             if not (abs(q - Q) <= tol): out.append(("gammaq:accuracy:" + region(a), f"GammaQ{where} = {q!r}, reference {Q!r}: error {abs(q-Q):.3g} > {acc_tol(a):g}"))
         if p is not None:
-            if not (0.0 <= p <= 1.0): out.append(("gammap:range:" + region(a), f"GammaP{where} = {p!r} lies outside [0,1]"))
+            if not (0.0 <= p <= 1.0): out.append(("gammap:range:" + range_region(a, p), f"GammaP{where} = {p!r} lies outside [0,1]"))
             if not (abs(p - P) <= tol): out.append(("gammap:accuracy:" + region(a), f"GammaP{where} = {p!r}, reference {P!r}: error {abs(p-P):.3g} > {acc_tol(a):g}"))
         if op in ("upper", "lower") and x > 0 and a <= 171.0:
             # asked alone (inside a history): Gamma(a) Q(x,a) with the reference Gamma (glibc tgamma, a few ulp) and one GammaLn evaluation's slack
@@ -878,7 +887,7 @@ def predicates(c, io):
             if x1 >= x0 and q1 > q0 + max(mono_slack(x0, a), mono_slack(x1, a)):
                 out.append(("gammaq:monotone:" + region(a), f"GammaQ increases from {q0!r} at x={x0!r} to {q1!r} at x={x1!r} (a={a!r}, by {q1-q0:.3g})")); break
         for x, q in zip(xs, qs):
-            if not (0.0 <= q <= 1.0): out.append(("gammaq:range:" + region(a), f"GammaQ(x={x!r}, a={a!r}) = {q!r} lies outside [0,1]")); break
+            if not (0.0 <= q <= 1.0): out.append(("gammaq:range:" + range_region(a, q), f"GammaQ(x={x!r}, a={a!r}) = {q!r} lies outside [0,1]")); break
     elif op in ("invp", "invq"):
         p, a = float.fromhex(t[1]), float.fromhex(t[2])
         if a <= 0:
